@@ -58,6 +58,17 @@ MUT += [
 ]
 
 
+MUT += [
+    ("M50", "penguin/src/client/mod.rs", "                entry.socket.clone(), // cheap\n                entry.peer_addr,", "                entry.socket.clone(), // cheap\n                entry.our_addr,", ["C01"], ["C01"]),
+    ("M51", "penguin/src/server/forwarder.rs", "                    target_port: rport,\n                    flow_id,\n                    data: buf.into(),", "                    target_port: rport,\n                    flow_id: 0,\n                    data: buf.into(),", ["C01"], ["C01"]),
+    ("M52", "penguin/src/client/handle_remote/socks.rs", "            (src, sport).into(),\n            socket.clone(), // cheap\n            true,", "            (src, sport).into(),\n            socket.clone(), // cheap\n            false,", ["C01", "C18"], ["C"]),
+    ("M53", "penguin/src/client/mod.rs", "            client_addr_map.insert((addr, our_addr), client_id);", "            client_addr_map.insert((our_addr, addr), client_id);", ["C01"], ["C01"]),
+    ("M54", "penguin/src/server/websocket.rs", "                    udp_clients.insert(flow_id, sender);", "                    udp_clients.insert(flow_id.wrapping_add(1), sender);", ["C01"], ["C01"]),
+    ("M55", "penguin/src/client/handle_remote/udp.rs", "            flow_id: client_id,\n            data: Bytes::from(buf),", "            flow_id: client_id,\n            data: Bytes::from(buf.split_off(1)),", ["C01"], ["C01"]),
+    ("M56", "penguin/src/server/forwarder.rs", "    let rstream = socket.connect(target).await?;", "    let rstream = socket.connect(local_addr).await?;", ["C01"], ["C01"]),
+]
+
+
 # behaviour-preserving refactors: every listed check must stay silent
 EQUIV = [
     ("E01", "penguin-mux/src/stream.rs", "if new >= self.rwnd_threshold {", "if !(new < self.rwnd_threshold) {", ["C03"]),
